@@ -237,6 +237,18 @@ func sequential(ctx *core.Ctx, bin string, caseNo int) {
 	}
 	ttls := sampleTTLs(c, before, 12)
 	fi0, _ := os.Stat(s.AOFPath())
+	stale := ""
+	if caseNo%3 == 1 {
+		// what a rewrite that crashed earlier leaves behind: files with the rewrite's names, longer
+		// than anything the next rewrite will write
+		if cur, err := os.ReadFile(s.AOFPath()); err == nil {
+			junk := append(append(append([]byte{}, cur...), cur...), []byte("*3\r\n$3\r\nSET\r\n$5\r\nstale\r\n$2\r\nid")...)
+			os.WriteFile(s.AOFPath()+"-shrink", junk, 0o600)
+			os.WriteFile(s.AOFPath()+"-bak", junk, 0o600)
+			stale = "+stale-files"
+			ctx.Count("sequential_with_stale_rewrite_files", 1)
+		}
+	}
 	nshrinks := 1 + caseNo%2
 	for i := 0; i < nshrinks; i++ {
 		if rep, err := c.Do("AOFSHRINK"); err != nil || rep.IsErr() {
@@ -249,7 +261,7 @@ func sequential(ctx *core.Ctx, bin string, caseNo int) {
 		}
 	}
 	fi1, _ := os.Stat(s.AOFPath())
-	replay := map[string]any{"case": "sequential", "nkeys": nkeys, "seed": ctx.Seed, "caseNo": caseNo}
+	replay := map[string]any{"case": "sequential" + stale, "nkeys": nkeys, "seed": ctx.Seed, "caseNo": caseNo}
 	live, err := dump.Take(s.Addr(), dump.Opts{})
 	if err != nil {
 		ctx.Inconclusive(err.Error())
@@ -295,7 +307,7 @@ func sequential(ctx *core.Ctx, bin string, caseNo int) {
 		ctx.Count("log_bytes_before", fi0.Size())
 		ctx.Count("log_bytes_after", fi1.Size())
 	}
-	ctx.Distinct(fmt.Sprintf("sequential|keys=%d|shrinks=%d", nkeys, nshrinks))
+	ctx.Distinct(fmt.Sprintf("sequential%s|keys=%d|shrinks=%d", stale, nkeys, nshrinks))
 	if caseNo == 0 {
 		ctx.Sample(map[string]any{"case": "sequential", "collections": len(before.Cols), "objects": before.NObjects(), "hooks": len(before.Hooks), "chans": len(before.Chans), "log_before": fi0.Size(), "log_after": fi1.Size()})
 	}
@@ -778,7 +790,7 @@ func dirList(dir string) []string {
 
 // Run is the C09 check.
 func Run(ctx *core.Ctx) {
-	ctx.Rule = "datasets with 7-25 collections of 1..100 objects (sizes on the 8-key / 32-id scan batch boundaries), every object kind, every field value kind (numbers incl. NaN/Inf spellings, strings needing escaping, true/false/null, JSON), strings, TTLs, hooks and channels with metas and EX. sequential: shrink (once or twice), live dump before == after, restart dump == live, TTLs not shortened; gated: the rewrite is parked at every key batch / id batch / before the final swap and a scripted writer (SET/FSET/DEL/PDEL/DROP/EXPIRE/PERSIST/JSET/JDEL/SETCHAN/DELCHAN/EVAL[/RENAME/RENAMENX]) touches scanned, in-scan and unscanned keys between releases, then restart dump == live dump; free-running: token writers during 2-3 shrinks; crash: the process kills itself at each named step of the rewrite / swap (with and without concurrent writers), restart must yield the full acknowledged state. non-trivial = shrink during which >= 1 write was accepted, or a crash point hit, or a sequential case; distinct key = (case kind, command kinds interleaved / crash point)"
+	ctx.Rule = "datasets with 7-25 collections of 1..100 objects (sizes on the 8-key / 32-id scan batch boundaries), every object kind, every field value kind (numbers incl. NaN/Inf spellings, strings needing escaping, true/false/null, JSON), strings, TTLs, hooks and channels with metas and EX. sequential: shrink (once or twice; one case in three with stale appendonly.aof-shrink / -bak files of an earlier crashed rewrite in the directory), live dump before == after, restart dump == live, TTLs not shortened; gated: the rewrite is parked at every key batch / id batch / before the final swap and a scripted writer (SET/FSET/DEL/PDEL/DROP/EXPIRE/PERSIST/JSET/JDEL/SETCHAN/DELCHAN/EVAL[/RENAME/RENAMENX]) touches scanned, in-scan and unscanned keys between releases, then restart dump == live dump; free-running: token writers during 2-3 shrinks; crash: the process kills itself at each named step of the rewrite / swap (with and without concurrent writers), restart must yield the full acknowledged state. non-trivial = shrink during which >= 1 write was accepted, or a crash point hit, or a sequential case; distinct key = (case kind, command kinds interleaved / crash point)"
 	ctx.Assumptions = []string{"shrink completion is read from the arrival counter of the hook after the last step", "kill at a crash point is SIGKILL of the process itself (page cache kept)"}
 	bin, err := srv.Build("plain")
 	if err != nil {
